@@ -855,8 +855,12 @@ class System:
             vi, ostate = self._fwd_prop(v, i, phase, state)
             ii = self._back_prop(vi, i, phase, state)
             iters += 1
-            if np.allclose(np.array(v), np.array(vi), rtol=vtol) and np.allclose(
-                np.array(i), np.array(ii), rtol=itol
+            # np.allclose() treats equal infinities as close: a diverged iterate is not a solution
+            if (
+                np.allclose(np.array(v), np.array(vi), rtol=vtol)
+                and np.allclose(np.array(i), np.array(ii), rtol=itol)
+                and np.all(np.isfinite(np.array(vi)))
+                and np.all(np.isfinite(np.array(ii)))
             ):
                 if not quiet:
                     pname = ""
